@@ -80,6 +80,19 @@ def main(argv):
         rows.append("  ((" + ", ".join(lean_str(x) for x in s) + "), " + lean_str(cls) + ",\n     " + lean_str(reason) + ")")
     out.append(",\n".join(rows))
     out.append("\n]\n\n")
+    # reasons that lean on a regenerated fact: the marker `[fact: <qualified name of a Bool in Gen>]` inside a reason
+    citing = []
+    for s in sites:
+        cls, reason = reviews[s]
+        for fact in re.findall(r'\[fact: ([A-Za-z0-9_.]+)\]', reason):
+            if (fact, reason) not in citing:
+                citing.append((fact, reason))
+    out.append("/-- reasons that lean on a fact re-extracted from the source on every run (marker `[fact: <name>]` in the reason):\n"
+               "    (qualified name of the fact, reason text).  A site whose reason is one of these texts is unreachable only while\n"
+               "    the fact holds: `Thm.C08.panic_class_reasons_hold` fails when the fact is false. -/\n"
+               "def citingReasons : List (String × String) := [\n")
+    out.append(",\n".join("  (" + lean_str(f) + ",\n     " + lean_str(r) + ")" for f, r in citing))
+    out.append("\n]\n\n")
     # list-combinator uses
     text = open(os.path.join(os.path.dirname(os.path.dirname(HERE)), "lean", "RsslVerif", "Gen", "PanicSites.lean")).read()
     m = re.search(r"def listUses[^\[]*\[\n(.*?)\n\]", text, re.S)
